@@ -119,6 +119,10 @@ func jsTypeNoNull(m *Model, t T) map[string]any {
 		s["$ref"] = "#/definitions/" + t.Ref
 		return s // siblings of $ref are ignored in draft-07
 	case KUScalars:
+		if names, ok := typeListOf(t); ok {
+			s["type"] = names
+			break
+		}
 		var branches []any
 		for _, b := range t.Branches {
 			branches = append(branches, jsType(m, b))
@@ -289,6 +293,33 @@ func RenderOpenAPISplit(m *Model, otherPkg string, moved map[string]bool) (main 
 	return mk(m.Package, a), mk(otherPkg, b)
 }
 
+// typeListOf: the JSON type names of a union of plain scalars asked to be
+// rendered as a type list.
+func typeListOf(t T) ([]any, bool) {
+	if !t.TypeList {
+		return nil, false
+	}
+	var names []any
+	for _, b := range t.Branches {
+		if b.Nullable || b.Const != nil || b.Default != nil || b.Min != nil || b.Max != nil || b.MinLen != nil || b.MaxLen != nil || b.Format != "" {
+			return nil, false
+		}
+		switch b.Kind {
+		case KString:
+			names = append(names, "string")
+		case KBool:
+			names = append(names, "boolean")
+		case KInt:
+			names = append(names, "integer")
+		case KFloat:
+			names = append(names, "number")
+		default:
+			return nil, false
+		}
+	}
+	return names, true
+}
+
 func regexQuote(s string) string {
 	var sb strings.Builder
 	for _, r := range s {
@@ -385,6 +416,10 @@ func oaType(m *Model, t T) map[string]any {
 		s["$ref"] = "#/components/schemas/" + t.Ref
 		return s
 	case KUScalars:
+		if names, ok := typeListOf(t); ok {
+			s["type"] = names
+			break
+		}
 		var branches []any
 		for _, b := range t.Branches {
 			branches = append(branches, oaType(m, b))
